@@ -570,6 +570,72 @@ def rule_literals(ctx):
 from sgrep import visits_all_statements  # noqa: E402
 
 
+def eval_constant_visitor(ctx, R, fn):
+    """C06.6 by evaluation: the statement visitor is run on an if-statement whose condition's recorded value is
+    unknown / the boolean true / the boolean false / a field element, and on statements of every other kind; it must
+    push exactly one report, built from the condition's meta and that boolean, in the two boolean worlds only."""
+    import a10
+    import passeval
+    from finfun import NONE, S, Unsupported
+    from passeval import O, Sink, V
+
+    IRF = "program_structure/src/intermediate_representation/ir.rs"
+    VMF = "program_structure/src/intermediate_representation/value_meta.rs"
+    try:
+        w = passeval.PassWorld([IRF, VMF], CC)
+    except Exception as e:  # noqa: BLE001
+        ctx.note("constant_conditional: evaluator unavailable (%s)" % e)
+        return False
+    roles = []
+    for i in fn["sig"]["inputs"]:
+        ty = i["ty"].replace(" ", "")
+        if ty == "&Statement":
+            roles.append("stmt")
+        elif ty in ("&mutReportCollection", "&mutVec<Report>"):
+            roles.append("sink")
+        else:
+            return False
+    if sorted(roles) != ["sink", "stmt"]:
+        return False
+    w.stubs["build_report"] = lambda args: ("K", "build_report", tuple(args))
+    worlds = []
+    for tag, val in (("unknown", NONE), ("true", S("Some", V("ValueReduction", "Boolean", value=True))), ("false", S("Some", V("ValueReduction", "Boolean", value=False))), ("field-element", S("Some", V("ValueReduction", "FieldElement", value=1)))):
+        cm = O("cond_meta:" + tag, value_knowledge=O("value_knowledge", get_reduces_to=val))
+        cond = O("cond:" + tag, meta=cm)
+        st = V("Statement", "IfThenElse", meta=O("stmt_meta", value_knowledge=O("vk", get_reduces_to=S("Some", V("ValueReduction", "Boolean", value=True)))), cond=cond, true_index=1, false_index=S("Some", 2))
+        worlds.append((tag, st, cm, {"true": True, "false": False}.get(tag)))
+    d = a10.enum_def(IRF, "Statement")
+    lv = passeval.Leaves()
+    for vname, vdef in d.items():
+        if vname != "IfThenElse":
+            worlds.append((vname, passeval.build_node("Statement", vname, vdef, lv)[0], None, None))
+    first_bad = {}
+    n = 0
+    for tag, st, cm, want in worlds:
+        sink = Sink()
+        try:
+            res = passeval.run(w, fn, [st if r == "stmt" else sink for r in roles])
+        except Unsupported as u:
+            ctx.note("constant_conditional::visit_statement is outside the evaluator's subset (%s): shape obligations apply" % u)
+            return False
+        n += 1
+        got = sink.items
+        if res is not None:
+            first_bad.setdefault("panics", "%s: %s" % (tag, res[1]))
+        elif want is None and got:
+            first_bad.setdefault("spurious", "%s: %d report(s) pushed" % (tag, len(got)))
+        elif want is not None and len(got) != 1:
+            first_bad.setdefault("missing", "condition known to be %s: %d report(s) pushed" % (tag, len(got)))
+        elif want is not None:
+            g = got[0]
+            if not (isinstance(g, tuple) and g[0] == "K" and g[1] == "build_report" and len(g[2]) == 2 and g[2][0] is cm and g[2][1] is want):
+                first_bad.setdefault("value", "condition known to be %s: the report is built from %r" % (tag, g))
+    ctx.floor(R, "statement worlds evaluated (constant_conditional)", n, 8)
+    ctx.check(R, "constant_conditional/reports-known-booleans-only", not ({"panics", "spurious", "missing"} & set(first_bad)), "; ".join(first_bad.get(k_) for k_ in ("panics", "spurious", "missing") if k_ in first_bad) or "one report exactly when the condition's recorded value is a boolean (%d worlds)" % n, site(CC, fn))
+    ctx.check(R, "constant_conditional/reports-that-value", "value" not in first_bad, first_bad.get("value", "built from the condition's meta and the recorded boolean"), site(CC, fn))
+    return True
+
+
 def rule_consumers(ctx):
     R = "C06.6"
     ctx.rule(R, "the constant-condition finding is issued exactly for conditions whose value is a known boolean, with that boolean")
@@ -597,13 +663,25 @@ def rule_consumers(ctx):
         p1, p2 = ifl[0][1], ifl[1][1]
         ok = p1["k"] == "PStruct" and last(p1["path"]) == "IfThenElse" and any(f_["name"] == "cond" and render(f_["pat"]).replace("&", "").strip() == "cond" for f_ in p1["fields"]) and render(strip(ifl[0][2])) in stmt_names
         ok = ok and render(p2).replace(" ", "") == "Some(Boolean{value})" and sgrep.match(sgrep.pattern("cond.meta().value_knowledge().get_reduces_to()"), ifl[1][2], {}, le)
-    ctx.check(R, "constant_conditional/reports-known-booleans-only", bool(ok), "report under %s" % cs, site(CC, pushes[0]))
-    ctx.check(R, "constant_conditional/reports-that-value", sgrep.match(sgrep.pattern("build_report(cond.meta(), value)"), pushes[0]["args"][0], {}, {k_: v_ for k_, v_ in le.items() if k_ != "value"}), render(pushes[0])[:100], site(CC, pushes[0]))
+    decided = fn["name"] == "visit_statement" and eval_constant_visitor(ctx, R, fn)
+    if not decided:
+        ctx.check(R, "constant_conditional/reports-known-booleans-only", bool(ok), "report under %s" % cs, site(CC, pushes[0]))
+        ctx.check(R, "constant_conditional/reports-that-value", sgrep.match(sgrep.pattern("build_report(cond.meta(), value)"), pushes[0]["args"][0], {}, {k_: v_ for k_, v_ in le.items() if k_ != "value"}), render(pushes[0])[:100], site(CC, pushes[0]))
     # message polarity
     for q, f in fns_in_file(CC):
         if f["name"] == "into_report":
             t = render(f["body"]).replace(" . ", ".")
-            ok = re.search(r"if self\.value \{[^}]*true[^}]*\} else \{[^}]*false", t) is not None or ("always {}" in t and "self.value" in t) or ("{}" in t and "self.value" in t)
+            tn = t.replace(" ", "")
+            # `let Self { value, .. } = self` / `let value = self.value` names the field; `{value}` captures it
+            named = {"self.value"} | {m_.group(1) for m_ in re.finditer(r"let(\w+)=self\.value;", tn)}
+            for m_ in re.finditer(r"letSelf\{([^}]*)\}=self;", tn):
+                for fld in m_.group(1).split(","):
+                    if fld == "value":
+                        named.add("value")
+                    elif fld.startswith("value:"):
+                        named.add(fld[len("value:"):])
+            shown = any(("{}" in t and re.search(r'"[^"]*\{\}[^"]*",\s*&?\*?%s\s*[,)]' % re.escape(nm_), t)) or (("{%s}" % nm_) in t and "." not in nm_) for nm_ in named)
+            ok = re.search(r"if self\.value \{[^}]*true[^}]*\} else \{[^}]*false", t) is not None or shown
             ctx.check(R, "ConstantBranchConditionWarning/message-states-the-value", ok, t[:200], site(CC, f))
     top = find_fn(CC, "find_constant_conditional_statement")
     if top is not None:
@@ -625,3 +703,6 @@ def run(ctx):
 
     ctx.include("C06.9", "a Num2Bits / Bits2Num size judged `less than the prime size` really is: the size test is strict and the prime sizes are those of the field (shared with C11.2/C11.3)", lambda c: c11.rule_thresholds(c, c11.rule_primes(c) or {}))
     ctx.include("C06.7", "prerequisite shared with C14: phi insertion is iterated, renaming order and scope pairing, phi identity (a missing phi makes a merged variable look constant)", c14.rule_phi_insertion, c14.rule_phis_and_locals, c14.rule_plumbing)
+    import c10
+
+    ctx.include("C06.10", "prerequisite shared with C10.1/C10.2: a constant is attributed to the variable the source names - blocks open and close the scope of declarations and of their renamed versions together, and every occurrence is renamed through the current scope (a read after a shadowing block must not resolve to the inner variable)", c10.rule_scopes, c10.rule_renaming)
